@@ -23,8 +23,13 @@ from .seqengine import World
 FAULT_KINDS = {"create", "wopen", "rename", "remove", "mkdir", "lock", "ropen"}
 CRASH_KINDS = {"create", "wopen", "rename", "remove", "mkdir", "chmod", "truncate", "link",
                "flush-before-truncate", "close-write", "rmdir"}
-PERSIST_CLASS = {"create": "open-for-writing", "wopen": "open-for-writing", "ropen": "open-for-reading",
-                 "rename": "rename", "remove": "remove", "mkdir": "mkdir", "lock": "lock"}
+# "a failure that persists for that destination": every operation of the same class on the same destination
+# keeps failing until the call returns. Putting a file AT a destination (rename onto it, create, open for
+# writing, mkdir) is one class - so a failed rename is not silently rescued by shutil.move's copy fallback -
+# while reading it, removing it and locking it are classes of their own (a roll-back may still remove or
+# read a file that could not be written).
+PERSIST_CLASS = {"create": "write-to-destination", "wopen": "write-to-destination", "rename": "write-to-destination",
+                 "mkdir": "write-to-destination", "ropen": "open-for-reading", "remove": "remove", "lock": "lock"}
 NOT_FOUND = {"PidRefsDoesNotExist", "OrphanPidRefsFileFound", "PidNotFoundInCidRefsFile",
              "RefsFileExistsButCidObjMissing"}
 
